@@ -47,9 +47,12 @@ type c13Run struct {
 	txModel      *c13Model
 	tx           c13Tx
 	txRO         bool
-	txIrregular  bool // the open transaction accepted a write to an irregular key
-	skip         bool // inside a block that a non-transactional stack does not execute
-	roReads      bool // inside a read-only block on a non-transactional stack: reads only
+	txTouched    map[string]bool // distinct keys the open transaction touched after its first write
+	txWrote      map[string]bool // keys the open transaction wrote
+	readOutside  map[string]bool // keys read outside a transaction so far (a read cache holds them)
+	txIrregular  bool            // the open transaction accepted a write to an irregular key
+	skip         bool            // inside a block that a non-transactional stack does not execute
+	roReads      bool            // inside a read-only block on a non-transactional stack: reads only
 	obs          map[string]int
 	unclean      bool            // the stack accepted an operation on a key/prefix that is not in path.Clean form
 	seen         map[string]bool // keys of operations the stack accepted
@@ -719,6 +722,7 @@ func (r *c13Run) exec(ops []c13Op, i int) *c13Fail {
 			return r.unexpectedErr(opid, o, err)
 		}
 		r.tx, r.txRO, r.txModel, r.txIrregular = tx, o.RO, r.model.clone(), false
+		r.txTouched, r.txWrote = map[string]bool{}, map[string]bool{}
 		r.obs["txn_begin"]++
 		return nil
 	case "commit", "rollback":
@@ -748,6 +752,22 @@ func (r *c13Run) exec(ops []c13Op, i int) *c13Fail {
 			if r.txModel.differsUnder(r.model, "") {
 				r.obs["txn_commit_with_writes"]++
 			}
+			// what a transaction-private read cache has to cope with: keys written
+			// early, then many other distinct keys touched before the commit
+			if len(r.txWrote) > 0 {
+				if len(r.txTouched) >= 5 {
+					r.obs["txn_commit_5plus_keys_touched_after_first_write"]++
+				}
+				if len(r.txTouched) >= 2049 {
+					r.obs["txn_commit_2049plus_keys_touched_after_first_write"]++
+				}
+				for k := range r.txWrote {
+					if r.readOutside[k] {
+						r.obs["txn_commit_wrote_key_read_before"]++
+						break
+					}
+				}
+			}
 			r.model = r.txModel
 		} else if r.txModel.differsUnder(r.model, "") {
 			r.obs["txn_rollback_with_writes"]++
@@ -763,7 +783,21 @@ func (r *c13Run) exec(ops []c13Op, i int) *c13Fail {
 		return nil
 	}
 	kv, m := r.kv(), r.cur()
-	r.done = append(r.done, o)
+	if o.Kind == "put" || o.Kind == "del" || o.Kind == "get" {
+		if r.tx != nil {
+			if len(r.txWrote) > 0 && !r.txWrote[o.Key] {
+				r.txTouched[o.Key] = true
+			}
+			if o.Kind != "get" && !r.txRO {
+				r.txWrote[o.Key] = true
+			}
+		} else if o.Kind == "get" {
+			if r.readOutside == nil {
+				r.readOutside = map[string]bool{}
+			}
+			r.readOutside[o.Key] = true
+		}
+	}
 	switch o.Kind {
 	case "put", "del":
 		if o.Kind == "put" && r.st.base == "raft" && r.st.physPrefix+o.Key == "" {
@@ -1020,7 +1054,7 @@ func c13Shrink(env *c13BaseEnv, layer string, seq *c13Seq, ops []c13Op, f *c13Fa
 
 // ---------------------------------------------------------------- driver
 
-const c13Rule = "a case = one generated operation sequence (put/delete/get/list/listpage, transaction blocks, ScanView/CollectKeys/CountKeys/HandleListPage/ClearView helpers; then a read-back sweep and a comparison of the base's physical content with outside keys + view content) applied to one stack of layers in lockstep with the sorted-map model; it is non-trivial when it contained a listpage whose 'after' cut a non-empty listing in two and a listing in which >= 2 keys collapsed into one folder entry; distinct = distinct (sequence, stack)"
+const c13Rule = "a case = one generated operation sequence (put/delete/get/list/listpage, transaction blocks, ScanView/CollectKeys/CountKeys/HandleListPage/ClearView helpers; then a read-back sweep and a comparison of the base's physical content with outside keys + view content) applied to one stack of layers in lockstep with the sorted-map model; it is non-trivial when it contained a listpage whose 'after' cut a non-empty listing in two and a listing in which >= 2 keys collapsed into one folder entry; on the transactional bases additionally the bulk-transaction shape on the read-cache layerings (pre-populate N keys, read all through the cache, one transaction that writes/deletes a few keys and then touches many other distinct keys, commit, read all back; N above the 4-entry private cache of a 256-entry read cache, and a few cases above the 2048 entries of the default size), non-trivial when >= 5 other keys were touched after the first write; distinct = distinct (sequence, stack)"
 
 func c13Family(t *testing.T, name string, env *c13BaseEnv, layersFor func(seq *c13Seq) []string, nseq, nops int, mins map[string]int64) {
 	seed := kit.Seed(13)
@@ -1029,12 +1063,8 @@ func c13Family(t *testing.T, name string, env *c13BaseEnv, layersFor func(seq *c
 	shard, shards := kit.Shard()
 	shrunk := map[string]int{}
 	samples := 0
-	for i := 0; i < nseq; i++ {
-		if i%shards != shard {
-			continue
-		}
-		seq := c13Gen(seed, i, nops)
-		for _, layer := range layersFor(seq) {
+	runSeq := func(seq *c13Seq, layers []string) {
+		for _, layer := range layers {
 			caseID := fmt.Sprintf("%s/%s/%s", seq.id(), env.name, layer)
 			if !kit.WantCase(caseID) {
 				continue
@@ -1050,7 +1080,10 @@ func c13Family(t *testing.T, name string, env *c13BaseEnv, layersFor func(seq *c
 			} else {
 				r.Count("runs_regular_profile", 1)
 			}
-			if run.obs["page_after_cuts"] > 0 && run.obs["list_folder_collapsed"] > 0 {
+			if seq.Tag != "" {
+				r.Count("runs_bulk_transaction_shape:"+seq.Tag, 1)
+			}
+			if run.obs["page_after_cuts"] > 0 && run.obs["list_folder_collapsed"] > 0 || seq.Tag != "" && run.obs["txn_commit_5plus_keys_touched_after_first_write"] > 0 {
 				r.Nontrivial(caseID)
 			}
 			if len(fails) == 0 {
@@ -1066,14 +1099,37 @@ func c13Family(t *testing.T, name string, env *c13BaseEnv, layersFor func(seq *c
 			}
 			for _, f := range fails {
 				ops := seq.Ops
-				if kit.OnlyCase() == "" && shrunk[f.Class] < 3 && f.OpID != "setup" {
+				if kit.OnlyCase() == "" && shrunk[f.Class] < 3 && f.OpID != "setup" && len(seq.Ops) <= 400 {
 					shrunk[f.Class]++
 					ops, f = c13Shrink(env, layer, seq, seq.Ops, f)
 				}
+				opss := seq.opStrings(ops)
+				if len(opss) > 120 {
+					opss = append(append(append([]string{}, opss[:30]...), fmt.Sprintf("... %d operations ...", len(opss)-90)), opss[len(opss)-60:]...)
+				}
 				r.Violate(f.Class, caseID, f.What, map[string]any{
 					"stack": run.st.name, "profile_hostile": seq.Hostile, "failing_check": f.OpID,
-					"ops_shrunk": seq.opStrings(ops), "ops_total": len(seq.Ops), "want": f.Want, "got": f.Got,
+					"ops_shrunk": opss, "ops_total": len(seq.Ops), "want": f.Want, "got": f.Got,
 				})
+			}
+		}
+	}
+	for i := 0; i < nseq; i++ {
+		if i%shards == shard {
+			seq := c13Gen(seed, i, nops)
+			runSeq(seq, layersFor(seq))
+		}
+	}
+	// bulk-transaction shape on the read-cache layerings of the transactional bases
+	if env.name == "inmem-txn" || env.name == "raft" {
+		for i := 0; i < kit.N(60, 1600); i++ {
+			if i%shards == shard {
+				runSeq(c13GenBulk(seed, i, false), []string{"cache256", "fullsmall", "cache3", "cache", "full"})
+			}
+		}
+		for i := 0; i < kit.N(1, 8); i++ {
+			if i%shards == shard || kit.OnlyCase() != "" {
+				runSeq(c13GenBulk(seed, i, true), []string{"cache", "full"})
 			}
 		}
 	}
@@ -1108,6 +1164,9 @@ func c13WithTxnMins() map[string]int64 {
 	m["page_in_txn_pending_removed_entry"] = 10
 	m["rotxn_write_rejected"] = 3
 	m["helper_own_txn"] = 10
+	m["txn_commit_5plus_keys_touched_after_first_write"] = 150
+	m["txn_commit_wrote_key_read_before"] = 150
+	m["txn_commit_2049plus_keys_touched_after_first_write"] = 1
 	return m
 }
 
